@@ -25,6 +25,7 @@ struct ArrayMonitor : Monitor {
   std::map<std::pair<std::string, int>, AbsVal::P> after_load;
   std::map<std::string, int> seen;
   long checks = 0, load_checks = 0;
+  bool region = false; // C15: loads through references instead of array loads
 
   ArrayMonitor(IntraFwd &a, CrabFunction &f, const Case &c, Stats &s, Outcome &o,
                const CheckResult &cr)
@@ -69,7 +70,7 @@ struct ArrayMonitor : Monitor {
   }
   bool on_stmt(Machine &m, Frame &f, const std::string &label, int idx, stmt_t &s,
                bool before) override {
-    if (before || f.depth != 0 || !s.is_arr_read())
+    if (before || f.depth != 0 || !(region ? s.is_ref_load() : s.is_arr_read()))
       return true;
     if (m.stop) // the load itself was outside the model
       return true;
@@ -93,14 +94,15 @@ struct ArrayMonitor : Monitor {
   }
 };
 
-Case gen_c14(Rng &r, const Tier &t, const std::vector<std::string> &doms) {
+Case gen_mem(const std::string &prop, GenConfig::Profile prof, Rng &r, const Tier &t,
+             const std::vector<std::string> &doms) {
   Case c;
-  c.property = "C14";
+  c.property = prop;
   c.domain = doms[r.below(doms.size())];
   const DomainInfo *di = find_domain(c.domain);
-  GenConfig gc = random_gen_config(r, GenConfig::ARRAY, false);
+  GenConfig gc = random_gen_config(r, prof, false);
   restrict_for_domain(gc, *di);
-  if (!(di->caps & CAP_BOOL) && r.chance(2, 3))
+  if (prof == GenConfig::ARRAY && !(di->caps & CAP_BOOL) && r.chance(2, 3))
     gc.nbools = 0;
   gc.max_stmts = std::max(gc.max_stmts, 2);
   gc.n_asserts = std::max(gc.n_asserts, 1);
@@ -120,7 +122,7 @@ Case gen_c14(Rng &r, const Tier &t, const std::vector<std::string> &doms) {
   return c;
 }
 
-Outcome check_c14(const Case &c, Stats &st) {
+Outcome check_mem(const Case &c, Stats &st, bool region) {
   Outcome out;
   apply_knobs(c);
   const DomainInfo *di = find_domain(c.domain);
@@ -163,6 +165,7 @@ Outcome check_c14(const Case &c, Stats &st) {
   harvest_constants(c.prog, pool);
   GuardResult mg = guarded(-1, [&]() {
     ArrayMonitor mon(*an, fn, c, st, out, cr);
+    mon.region = region;
     for (int e = 0; e < c.n_execs && !out.violated; e++) {
       RandomScheduler sched(mix64(c.exec_seed + (uint64_t)e));
       configure_scheduler(sched, c, *di, pool);
@@ -175,7 +178,7 @@ Outcome check_c14(const Case &c, Stats &st) {
         out.trace = trace_of(m);
     }
     st.inc("gamma_checks", mon.checks);
-    st.inc("array_load_checks", mon.load_checks);
+    st.inc(region ? "ref_load_checks" : "array_load_checks", mon.load_checks);
     st.inc("assertions_judged", mon.verdicts.judged);
     st.inc("assertions_judged_safe_verdict", mon.verdicts.judged_safe);
     for (auto &kv : mon.pre)
@@ -194,7 +197,25 @@ Outcome check_c14(const Case &c, Stats &st) {
 std::vector<std::string> array_domains(const Tier &t) {
   return domains_with(CAP_ARRAY, CAP_REGION | CAP_BV, !t.thorough);
 }
-PropertyRegistrar reg_c14({"C14", "sim_prog", gen_c14, check_c14, array_domains});
+PropertyRegistrar reg_c14({"C14", "sim_prog",
+                           [](Rng &r, const Tier &t, const std::vector<std::string> &d) {
+                             return gen_mem("C14", GenConfig::ARRAY, r, t, d);
+                           },
+                           [](const Case &c, Stats &st) { return check_mem(c, st, false); },
+                           array_domains});
+
+// C15: the region/reference domain. Same monitors, on loads through references;
+// in_gamma also compares is_null_ref / get_allocation_sites of every reference
+// variable with the concrete heap at every block entry/exit and after every load.
+std::vector<std::string> region_domains(const Tier &t) {
+  return domains_with(CAP_REGION, CAP_BV, !t.thorough);
+}
+PropertyRegistrar reg_c15({"C15", "sim_prog",
+                           [](Rng &r, const Tier &t, const std::vector<std::string> &d) {
+                             return gen_mem("C15", GenConfig::REGION, r, t, d);
+                           },
+                           [](const Case &c, Stats &st) { return check_mem(c, st, true); },
+                           region_domains});
 
 } // namespace
 } // namespace sim
